@@ -149,6 +149,13 @@ func tokenOf(d string) (string, bool) {
 		}
 		return g, true
 	}
+	mg := ""
+	if len(p) == 9 {
+		mg, p = p[8], p[:8]
+		if mg == "" {
+			return "", false
+		}
+	}
 	if len(p) != 8 || p[0] != "t" {
 		return "", false
 	}
@@ -214,10 +221,59 @@ func tokenOf(d string) (string, bool) {
 		return "", false
 	}
 	t := ss + "." + sig
+	if mg != "" {
+		var ok bool
+		if t, ok = mangleToken(mg, t, jwtAlgs[sa]); !ok {
+			return "", false
+		}
+	}
 	if len(tokCache) < 200000 {
 		tokCache[d] = t
 	}
 	return t, true
+}
+
+// mangleToken produces another SPELLING of the compact JWS t (same segments, same signature bytes where the
+// lenient base64 decoder of jwt-go allows it).  Only for really signed tokens.
+func mangleToken(kind, t string, signed bool) (string, bool) {
+	if !signed {
+		return "", false
+	}
+	seg := strings.Split(t, ".")
+	if len(seg) != 3 || len(seg[2]) < 8 {
+		return "", false
+	}
+	switch kind {
+	case "dot":
+		return t + ".", true
+	case "eq1":
+		return t + "=", true
+	case "eq2":
+		return t + "==", true
+	case "lf":
+		return t + "\n", true
+	case "lfm":
+		h := len(seg[2]) / 2
+		return seg[0] + "." + seg[1] + "." + seg[2][:h] + "\n" + seg[2][h:], true
+	case "bits1", "bits2", "bits3": // other low bits in the last signature character (unused bits if len%4 != 0)
+		k := int(kind[4] - '0')
+		sig := seg[2]
+		v := strings.IndexByte(b64url, sig[len(sig)-1])
+		mask := 3
+		if len(sig)%4 == 2 {
+			mask = 15
+		}
+		if v < 0 {
+			return "", false
+		}
+		return seg[0] + "." + seg[1] + "." + sig[:len(sig)-1] + string(b64url[(v&^mask)|((v+k)&mask)]), true
+	case "cpad": // '=' padding spelled out in the claims segment
+		if len(seg[1])%4 == 0 {
+			return "", false
+		}
+		return seg[0] + "." + seg[1] + strings.Repeat("=", 4-len(seg[1])%4) + "." + seg[2], true
+	}
+	return "", false
 }
 
 func execJWT(f []string) string {
@@ -255,7 +311,8 @@ func execJWT(f []string) string {
 		pre, ok1 := unhex(p[0])
 		suf, ok2 := unhex(p[2])
 		tok, ok3 := tokenOf(p[1])
-		if !ok1 || !ok2 || !ok3 || (pre != "" && !strings.HasSuffix(pre, " ")) || (suf != "" && !strings.HasPrefix(suf, " ")) {
+		if !ok1 || !ok2 || !ok3 || (pre != "" && !strings.HasSuffix(pre, " ") && !strings.HasSuffix(pre, "\t")) ||
+			(suf != "" && !strings.HasPrefix(suf, " ") && !strings.HasPrefix(suf, "\t") && !strings.HasPrefix(suf, ".")) {
 			return "bad-op"
 		}
 		hdr["Authorization"] = []string{pre + tok + suf}
@@ -396,9 +453,14 @@ func genJWT(r *vh.Rand) string {
 	pre, suf := "Bearer ", ""
 	switch r.Intn(20) {
 	case 0:
-		pre = r.Pick("bearer ", "BEARER ", "Bearer  ", " Bearer ", "", "Basic ", "Bearer: ", "Bearer\t ", "JWT ", "Bearer Bearer ", "  ")
+		pre = r.Pick("bearer ", "BEARER ", "Bearer  ", " Bearer ", "", "Basic ", "Bearer: ", "Bearer\t ", "JWT ", "Bearer Bearer ", "  ",
+			"Bearer\t", "Bearer \t", "\tBearer ", "Bearer\t\t")
 	case 1:
-		suf = r.Pick(" ", " x", "  ", " "+"Bearer")
+		suf = r.Pick(" ", " x", "  ", " "+"Bearer", "\t", ".", "..", ". ", "\t ")
+	case 3, 4: // another spelling of the same token
+		if jwtAlgs[sa] {
+			tok += "." + r.Pick("dot", "eq1", "eq1", "eq2", "lf", "lfm", "bits1", "bits2", "bits3", "cpad")
+		}
 	case 2:
 		tok = "g." + hx(r.Pick("", "INVALID", "a.b", "a.b.c.d", "..", "Bearer", "x y", " ", "eyJhbGciOiJub25lIn0.e30", "abc.def."+"ghi.jkl"))
 		if r.Chance(1, 3) {
